@@ -45,6 +45,20 @@ def _mk(pendulum, z, inst, clone=False):
     return obs.utc_dt(pendulum, inst).in_timezone(_tz(pendulum, z, clone))
 
 
+_SUBS = []
+
+
+def _subclasses(pendulum):
+    if not _SUBS:
+        class StampedDateTime(pendulum.DateTime):
+            pass
+
+        class OtherDateTime(pendulum.DateTime):
+            pass
+        _SUBS.extend([StampedDateTime, OtherDateTime])
+    return _SUBS
+
+
 def _flip(pendulum, x, z):
     # inert-ness is decided by the reference model, not by asking the implementation
     if not isinstance(z, int) and obs.is_repeated_wall(z, obs.fields(x)):
@@ -93,6 +107,15 @@ def check_pair(acc, pendulum, za, ia, zb, ib, clone_b=False, native=True):
             b2 = b if b2 is None else b2
             forms.append(("sub-inert-fold", lambda: b2 - a2, diff))
             forms.append(("abs-inert-fold", lambda: a2.diff(b2), abs(diff)))
+    if za is not None and (ia + ib) // US % 4 == 0:
+        # a user subclass of DateTime on either side (and a sibling subclass): the same two instants
+        Sub, Sib = _subclasses(pendulum)
+        sa = Sub(*obs.fields(a), tzinfo=a.tzinfo, fold=a.fold)
+        sb = Sub(*obs.fields(b), tzinfo=b.tzinfo, fold=b.fold)
+        tb = Sib(*obs.fields(b), tzinfo=b.tzinfo, fold=b.fold)
+        forms += [("sub/subclass-minus-base", lambda: sb - a, diff), ("sub/base-minus-subclass", lambda: b - sa, diff),
+                  ("sub/subclass-minus-sibling", lambda: tb - sa, diff), ("diff/subclass", lambda: sa.diff(b, False), diff),
+                  ("sub/subclass-minus-subclass", lambda: sb - sa, diff)]
     if native and za is not None:
         # endpoints that carry a stdlib tzinfo (results of astimezone(<stdlib tz>)): same instants, same length
         try:
